@@ -867,7 +867,18 @@ rv = .false.
                     )
 
                 if subprogram == "function":
-                    arg_c_decl.append(ast.bind_c(name=key, params=None))
+                    # The result of the callback, not of the wrapped function.
+                    if arg.is_pointer():
+                        result_type = "type(C_PTR)"
+                        self.set_f_module(modules, "iso_c_binding", "C_PTR")
+                    else:
+                        result_type = arg.typemap.f_c_type or arg.typemap.f_type
+                        self.update_f_module(
+                            modules,
+                            imports,
+                            arg.typemap.f_c_module or arg.typemap.f_module,
+                        )
+                    arg_c_decl.append("{} :: {}".format(result_type, key))
                 arguments = ",\t ".join(arg_f_names)
                 if node.options.literalinclude:
                     iface.append("! start abstract " + key)
